@@ -58,6 +58,11 @@ impl<K> KeyDate<K> {
     pub(crate) fn key(&self) -> &Arc<K> {
         &self.key
     }
+
+    #[cfg(mini_moka_verif)]
+    pub(crate) fn verif_entry_info(&self) -> &EntryInfo<K> {
+        &self.entry_info
+    }
 }
 
 pub(crate) struct KeyHashDate<K> {
